@@ -6,22 +6,21 @@ Local Open Scope Z_scope.
 
 (* ---------------------------------------------------------------- nested expressions *)
 
-(* full strength: every non-comparison inner operator, every outer operator, all types and ALL
-   values, the inner count a run-time value or a compile-time constant (k1) *)
-Definition rt_context_independent : Prop :=
+(* nested = stored under a cast policy p: every non-comparison inner operator, every outer operator,
+   all types and ALL values, the inner right operand a run-time value or - for the shifts, the only
+   operators whose emitted form looks at it - a compile-time constant (k1) *)
+Definition rt_context_independent_p (p : cast_policy) : Prop :=
   forall o1 o2 t1 t2 t3 a b c k1, wf_ity t1 -> wf_ity t2 -> wf_ity t3 -> is_cmpop o1 = false ->
+    (k1 = true -> is_shiftop o1 = true) ->
     in_range t1 a -> in_range t2 b -> in_range t3 c ->
-    rt_nested_l o1 o2 t1 t2 t3 a b c k1 = rt_stored_l o1 o2 t1 t2 t3 a b c k1.
+    rt_nested_l_p p o1 o2 t1 t2 t3 a b c k1 = rt_stored_l_p p o1 o2 t1 t2 t3 a b c k1.
 
-(* the discriminating conditions scraped from the emitter on this run: a revert of 1d3f0fa or
-   8eb30df makes one of these (and so the theorems below) fail *)
-Lemma binop_casts_fact : binop_casts_subint = true.
-Proof. reflexivity. Qed.
-Lemma tdiv_casts_fact : tdiv_mixed_casts_back = true.
-Proof. reflexivity. Qed.
-(* 3d9c769: the constant-count `<<` fast path casts an unsigned result narrower than int *)
-Lemma shl_fast_casts_fact : shl_fast_casts_unsigned_subint = true.
-Proof. reflexivity. Qed.
+(* the statement for the code under test: the policy read from the emitter on this run *)
+Definition rt_context_independent : Prop := rt_context_independent_p gen_policy.
+
+(* the policy scraped on this run (condition + emitted cast of 1d3f0fa, 8eb30df, 3d9c769) *)
+Lemma gen_policy_casts : p_binop gen_policy = true /\ p_tdiv gen_policy = true /\ p_shl gen_policy = true.
+Proof. repeat split. Qed.
 
 (* witnesses of the defects repaired by 1d3f0fa / 8eb30df / 3d9c769 *)
 Lemma nested_repaired_witnesses :
@@ -135,6 +134,9 @@ Proof.
     end; reflexivity.
 Qed.
 
+Section Policy.
+Variable p : cast_policy.
+
 (* ---- the outer operator sees the C type of its left operand only through its promotion *)
 
 Lemma promote_idem t : wf_ity t -> promote (promote t) = promote t.
@@ -149,10 +151,10 @@ Proof.
 Qed.
 
 Lemma rt_outer_promote o2 ti t3 ci ci' v c : promote ci = promote ci' ->
-  rt_outer o2 ti t3 ci v c = rt_outer o2 ti t3 ci' v c.
+  rt_outer_p p o2 ti t3 ci v c = rt_outer_p p o2 ti t3 ci' v c.
 Proof.
   intros P. assert (E : c_arith_type ci t3 = c_arith_type ci' t3) by (unfold c_arith_type; rewrite P; reflexivity).
-  unfold rt_outer, rt_bin_c. cbn [fast_count andb].
+  unfold rt_outer_p, rt_bin_c_p. cbn [fast_count andb].
   rewrite (plain_c_ctype o2 ci ci' t3 v c E), E. reflexivity.
 Qed.
 
@@ -174,20 +176,20 @@ Proof. intros Ht. rewrite c_conv_gnu by exact Ht. intros [= <-]. apply wrap_rang
 (* value and C type of a fast-path shift: the value is in the range of the left type and the C type
    promotes like it - provided the unsigned sub-int `<<` is cast *)
 Lemma shift_fast_ok o t a b c1 v1 : wf_ity t -> in_range t a -> fast_count o t true b = true ->
-  (o = Bshl -> sgn t = false -> (bits t <? 32) = true -> shl_fast_casts_unsigned_subint = true) ->
-  rt_shift_fast o t t a b = Some (c1, v1) -> in_range t v1 /\ promote c1 = promote t.
+  (o = Bshl -> sgn t = false -> (bits t <? 32) = true -> p_shl p = true) ->
+  rt_shift_fast_p p o t t a b = Some (c1, v1) -> in_range t v1 /\ promote c1 = promote t.
 Proof.
   intros Ht Ha Hf Hcast. unfold fast_count in Hf. cbn [andb] in Hf.
   apply andb_prop in Hf. destruct Hf as [Hf Ho]. apply andb_prop in Hf. destruct Hf as [Hb0 Hb1].
   assert (B0 : 0 <= b) by lia. assert (B1 : b < bits t) by lia.
-  destruct o; try discriminate Ho; cbn [rt_shift_fast].
+  destruct o; try discriminate Ho; cbn [rt_shift_fast_p].
   - (* shl *)
     destruct (sgn t) eqn:S.
     + destruct (obind (obind (c_conv Gnu (to_unsigned t) a) (fun a' => c_shl Gnu (to_unsigned t) I32 a' b)) (c_conv Gnu t)) as [v|] eqn:E;
         cbn [omap]; [|discriminate]. intros [= <- <-]. split; [|reflexivity].
       destruct (obind (c_conv Gnu (to_unsigned t) a) (fun a' => c_shl Gnu (to_unsigned t) I32 a' b)) as [w|]; cbn [obind] in E; [|discriminate].
       eapply conv_gnu_range; eassumption.
-    + destruct (shl_fast_casts_unsigned_subint && (bits t <? 32)) eqn:C.
+    + destruct (p_shl p && (bits t <? 32)) eqn:C.
       * destruct (obind (c_shl Gnu t I32 a b) (c_conv Gnu t)) as [v|] eqn:E; cbn [omap]; [|discriminate]. intros [= <- <-].
         split; [|reflexivity]. destruct (c_shl Gnu t I32 a b) as [w|]; cbn [obind] in E; [|discriminate].
         eapply conv_gnu_range; eassumption.
@@ -215,19 +217,20 @@ Proof.
 Qed.
 
 (* ---- the general statement, under the condition on the unsigned sub-int `<<` fast path *)
-Lemma nested_eq_gen o1 o2 t1 t2 t3 a b c k1 : wf_ity t1 -> wf_ity t2 -> is_cmpop o1 = false -> in_range t1 a ->
+Lemma nested_eq_gen o1 o2 t1 t2 t3 a b c k1 : p_binop p = true -> p_tdiv p = true ->
+  wf_ity t1 -> wf_ity t2 -> is_cmpop o1 = false -> in_range t1 a ->
   (fast_count o1 t1 k1 b = true -> o1 = Bshl -> sgn t1 = false -> (bits t1 <? 32) = true ->
-   shl_fast_casts_unsigned_subint = true) ->
-  rt_nested_l o1 o2 t1 t2 t3 a b c k1 = rt_stored_l o1 o2 t1 t2 t3 a b c k1.
+   p_shl p = true) ->
+  rt_nested_l_p p o1 o2 t1 t2 t3 a b c k1 = rt_stored_l_p p o1 o2 t1 t2 t3 a b c k1.
 Proof.
-  intros H1 H2 Hc Ha Hcast. unfold rt_nested_l, rt_stored_l, rt_bin_k, rt_bin_c.
+  intros Hb Ht H1 H2 Hc Ha Hcast. unfold rt_nested_l_p, rt_stored_l_p, rt_bin_k_p, rt_bin_c_p.
   destruct (fast_count o1 t1 k1 b) eqn:F.
   { assert (K : k1 = true) by (unfold fast_count in F; destruct k1; [reflexivity | discriminate F]). subst k1.
     assert (T : rt_type o1 t1 t2 = t1).
     { unfold fast_count in F. unfold rt_type. destruct o1; cbn [is_shiftop]; try reflexivity;
         rewrite !Bool.andb_false_r in F; discriminate F. }
     rewrite T.
-    destruct (rt_shift_fast o1 t1 t1 a b) as [[c1 v1]|] eqn:E; [|reflexivity].
+    destruct (rt_shift_fast_p p o1 t1 t1 a b) as [[c1 v1]|] eqn:E; [|reflexivity].
     destruct (shift_fast_ok o1 t1 a b c1 v1 H1 Ha F (Hcast eq_refl) E) as [Hv Hp].
     unfold of_val. cbn [obind]. rewrite c_conv_inrange by assumption.
     apply rt_outer_promote. exact Hp. }
@@ -236,7 +239,7 @@ Proof.
   { destruct (rt_bin o1 t1 t2 a b) as [ti v | r | m |] eqn:R; cbn [of_stored]; try reflexivity.
     - apply rt_bin_type in R. subst ti. reflexivity.
     - exfalso. exact (rt_bin_not_bool _ _ _ _ _ _ Hc R). }
-  rewrite Hc, binop_casts_fact, tdiv_casts_fact. cbn [andb].
+  rewrite Hc, Hb, Ht. cbn [andb].
   destruct (mixed t1 t2 && match o1 with Btdiv | Btmod => true | _ => false end) eqn:MD.
   { (* (T)((T)l / (T)r) *)
     apply andb_prop in MD. destruct MD as [M D].
@@ -259,15 +262,40 @@ Proof.
   rewrite c_conv_inrange by assumption. reflexivity.
 Qed.
 
-(* the full statement follows from the cast of the fast path ... *)
-Lemma rt_context_independent_if_cast : shl_fast_casts_unsigned_subint = true -> rt_context_independent.
+End Policy.
+
+(* nested = stored holds EXACTLY under the policy that casts in all three places: each cast is needed
+   (witnesses: the inputs of the three repaired defects) and together they suffice *)
+Lemma rt_context_independent_if_cast p :
+  p_binop p = true -> p_tdiv p = true -> p_shl p = true -> rt_context_independent_p p.
 Proof.
-  intros F o1 o2 t1 t2 t3 a b c k1 H1 H2 _ Hc Ha _ _. apply nested_eq_gen; try assumption. intros; exact F.
+  intros Hb Ht Hs o1 o2 t1 t2 t3 a b c k1 H1 H2 _ Hc _ Ha _ _. apply nested_eq_gen; try assumption. intros; exact Hs.
 Qed.
 
-(* ... which the emitter read on this run has (3d9c769): FULL strength, run-time and compile-time counts *)
+Ltac use_witness H o1 o2 t1 t2 t3 a b c k1 :=
+  let E := fresh "E" in
+  assert (E : rt_nested_l_p _ o1 o2 t1 t2 t3 a b c k1 = rt_stored_l_p _ o1 o2 t1 t2 t3 a b c k1)
+    by (apply H; first [reflexivity | (intros; discriminate) | (vm_compute; split; intros; discriminate)]);
+  vm_compute in E; discriminate E.
+
+Lemma rt_context_independent_casts_needed p :
+  rt_context_independent_p p -> p_binop p = true /\ p_tdiv p = true /\ p_shl p = true.
+Proof.
+  intros H. destruct p as [pb pt ps]. cbn [p_binop p_tdiv p_shl]. repeat split.
+  - destruct pb; [reflexivity | exfalso]. destruct pt, ps; use_witness H Badd Bgt I8 I8 I8 127 1 0 false.
+  - destruct pt; [reflexivity | exfalso]. destruct pb, ps; use_witness H Btdiv Bgt I8 U8 I8 (-128) 255 0 false.
+  - destruct ps; [reflexivity | exfalso]. destruct pb, pt; use_witness H Bshl Bgt U8 I64 U8 200 1 255 true.
+Qed.
+
+Lemma rt_context_independent_iff_policy p :
+  rt_context_independent_p p <-> (p_binop p = true /\ p_tdiv p = true /\ p_shl p = true).
+Proof.
+  split; [apply rt_context_independent_casts_needed | intros (Hb & Ht & Hs); apply rt_context_independent_if_cast; assumption].
+Qed.
+
+(* ... and the emitter read on this run has that policy: FULL strength for the code under test *)
 Lemma rt_context_independent_holds : rt_context_independent.
-Proof. exact (rt_context_independent_if_cast shl_fast_casts_fact). Qed.
+Proof. apply rt_context_independent_iff_policy. exact gen_policy_casts. Qed.
 
 (* ---- the fast path of a compile-time count computes what the helper computes (so the theorems about
    rt_bin - modularity, fold = run time - speak about constant counts as well): exhaustively for the
